@@ -354,7 +354,8 @@ class Interp:
                     idx = const_val(iv)
                 elif isinstance(e, dict) and "ci" in e and not e.get("from_end"):
                     idx = e["ci"]
-            v = ("elem", self.site(self.counter), idx)
+            cut = next(i for i, e in enumerate(loc[1]) if e[0] in ("ix", "?"))
+            v = ("elem", self.site(self.counter), idx, (loc[0], loc[1][:cut]))
             set_ty(v, tykey(place.ty))
             return v
         v = S.read(loc)
@@ -1058,7 +1059,10 @@ def stable(sv, depth=0):
     if h in ("min", "max"):
         return "%s(%s,%s)" % (h, r(sv[2]), r(sv[3]))
     if h == "elem":
-        return "elem" if len(sv) < 3 or sv[2] is None else "elem[%s]" % sv[2]
+        base = "elem" if len(sv) < 3 or sv[2] is None else "elem[%s]" % sv[2]
+        if len(sv) > 3 and ELEM_SOURCES[0]:
+            return "%s of %s" % (base, stable_loc(sv[3], depth + 1))
+        return base
     if h == "upd":
         return r(sv[1])
     if h == "agg":
@@ -1075,6 +1079,7 @@ def stable(sv, depth=0):
 
 
 CUR_BODY = [None]
+ELEM_SOURCES = [False]     # render the container an element was read from (used by the session rules)
 
 
 def stable_loc(loc, depth=0):
